@@ -133,7 +133,11 @@ def run(ctx):
         case = {'dataset': d.spec['label'], 'depth': {k: sp[k] for k in ('n', 'up', 'deep_first', 'phys')},
                 'coords': sp['coords'], 'order': names, 'positive_down': pd, 'deep_to_shallow': dts, 'via_accessor': via_ems}
         before = ds.copy(deep=True)
-        with warnings.catch_warnings():
+        # the calling program may have set xarray options (keep_attrs off or on, another arithmetic join): the result is the same
+        opts = [{}, {'keep_attrs': False}, {'keep_attrs': True}, {'arithmetic_join': 'exact'}, {}][(len(lit) + 3 * (pd is False) + (dts is True)) % 5]
+        ctx.count(f'xarray options:{opts or "defaults"}')
+        case['xarray_options'] = opts
+        with warnings.catch_warnings(), xarray.set_options(**opts):
             warnings.simplefilter('ignore')
             if via_ems:
                 r = attempt(lambda: ds.ems.normalize_depth_variables(positive_down=pd, deep_to_shallow=dts))
